@@ -111,6 +111,11 @@ func writeReplay(w *World, r *Result, path, prop string) bool {
 				}
 			}
 		}
+		if sr := streamReplay(r); sr != "" {
+			fmt.Fprintf(&b, "\nThe failed obligation speaks about the ghost stream (all delivery schedules). A concrete frame and schedule contradicting it on the real code was found by the stream harness (replay aid, not part of the proof):\n%s\nreplay: CONFIRMED on the real code\n", sr)
+			os.WriteFile(path, b.Bytes(), 0o644)
+			return true
+		}
 		if in == nil {
 			if sr := searchReplay(w, r, seed); sr != "" {
 				fmt.Fprintf(&b, "\nThe solver's model is a state behind a loop cut or a callee contract, not a function input; a failing input for this site was found by a bounded search over short inputs seeded with the model (replay aid, not part of the proof):\n%s\nreplay: CONFIRMED on the real code\n", sr)
@@ -153,6 +158,12 @@ type replayInput struct {
 	stream   *streamScript
 	note     string
 	callArgs string
+	dataName string
+	recvName string
+	recvInit string
+	nres     int
+	post     string
+	postSrc  string
 }
 
 type streamScript struct {
@@ -190,12 +201,24 @@ func extractInput(w *World, vc *VC, ob *Obligation, cond string, kind string) *r
 	}
 	in := &replayInput{recvType: m[1], method: m[2], fields: map[string]string{}, kind: kind}
 	fn := vc.root
+	in.recvName = fn.Params[0].Name()
+	in.nres = fn.Signature.Results().Len()
+	if kind == "ensures" && ob.Fn == root {
+		if n, err := parseSpec(ob.Desc); err == nil {
+			c := &goCtx{recv: in.recvName}
+			s := c.expr(n)
+			if c.bad == "" {
+				in.post, in.postSrc = s, ob.Desc
+			}
+		}
+	}
 	var terms []string
 	var dataBase, dataLen string
 	for _, p := range fn.Params[1:] {
 		if isSliceT(p.Type()) && typeStr(elemOf(p.Type())) == "uint8" {
 			// parameter leaves are the first three fresh names f1_p_<name>!k
 			dataBase, dataLen = findDecl(vc, "f1_p_"+p.Name(), 0), findDecl(vc, "f1_p_"+p.Name(), 1)
+			in.dataName = p.Name()
 		}
 	}
 	u8 := "H_uint8_0"
@@ -265,6 +288,15 @@ func extractInput(w *World, vc *VC, ob *Obligation, cond string, kind string) *r
 			vc.termSorts[t] = ls[0].Sort
 		}
 	}
+	recvInitTerm := ""
+	if l, ok := numLeaf(elemOf(fn.Params[0].Type())); ok {
+		arr := l.Key + "_0"
+		if vc.declared[arr] {
+			recvInitTerm = fmt.Sprintf("(select %s %s)", arr, recvBase)
+			terms = append(terms, recvInitTerm)
+			vc.termSorts[recvInitTerm] = l.Sort
+		}
+	}
 	if !vc.declared[u8] {
 		vc.decls = append(vc.decls, "(declare-const H_uint8_0 (Array Int (_ BitVec 8)))")
 		vc.declared[u8] = true
@@ -310,6 +342,11 @@ func extractInput(w *World, vc *VC, ob *Obligation, cond string, kind string) *r
 			}
 		}
 	}
+	if recvInitTerm != "" {
+		if n, ok := smtInt(vals[recvInitTerm]); ok {
+			in.recvInit = strconv.FormatInt(n, 10)
+		}
+	}
 	for _, f := range sliceTerms {
 		if n, ok := smtInt(vals[f.term]); ok && n > 0 && n < 1<<20 {
 			in.fields[f.name] = fmt.Sprintf("make(%s, %d)", f.typ, n)
@@ -343,9 +380,18 @@ func findDecl(vc *VC, prefix string, k int) string {
 
 func (in *replayInput) testSource() string {
 	var b strings.Builder
-	b.WriteString("package mq\n\nimport (\n\t\"fmt\"\n\t\"io\"\n\t\"testing\"\n)\n\nvar _ = io.Discard\n\n")
-	b.WriteString("func TestVerifReplay(t *testing.T) {\n")
-	fmt.Fprintf(&b, "\tdata := make([]byte, %d)\n\t_ = data\n\tcopy(data, []byte{", len(in.data))
+	b.WriteString("package mq\n\nimport (\n\t\"fmt\"\n\t\"io\"\n\t\"reflect\"\n\t\"testing\"\n)\n\nvar _ = io.Discard\nvar _ = reflect.DeepEqual\n")
+	b.WriteString(replayHelpers)
+	b.WriteString("\nfunc TestVerifReplay(t *testing.T) {\n")
+	dn := in.dataName
+	if dn == "" {
+		dn = "data"
+	}
+	rn := in.recvName
+	if rn == "" {
+		rn = "p"
+	}
+	fmt.Fprintf(&b, "\t%s := make([]byte, %d)\n\t_ = %s\n\tcopy(%s, []byte{", dn, len(in.data), dn, dn)
 	for i, c := range in.data {
 		if i >= 48 {
 			break
@@ -356,17 +402,37 @@ func (in *replayInput) testSource() string {
 		fmt.Fprintf(&b, "0x%02x", c)
 	}
 	b.WriteString("})\n")
-	fmt.Fprintf(&b, "\tvar p %s\n", in.recvType)
+	fmt.Fprintf(&b, "\tvar recv_ %s\n", in.recvType)
+	if in.recvInit != "" {
+		fmt.Fprintf(&b, "\trecv_ = %s\n", in.recvInit)
+	}
+	fmt.Fprintf(&b, "\t%s := &recv_\n", rn)
 	var names []string
 	for name := range in.fields {
 		names = append(names, name)
 	}
 	sort.Strings(names)
 	for _, name := range names {
-		fmt.Fprintf(&b, "\tp.%s = %s\n", name, in.fields[name])
+		fmt.Fprintf(&b, "\t%s.%s = %s\n", rn, name, in.fields[name])
 	}
+	fmt.Fprintf(&b, "\told_%s := new(%s)\n\t*old_%s = *%s\n\t_ = old_%s\n", rn, in.recvType, rn, rn, rn)
+	fmt.Fprintf(&b, "\told_%s := append([]byte(nil), %s...)\n\t_ = old_%s\n", dn, dn, dn)
 	b.WriteString("\tdefer func() {\n\t\tif e := recover(); e != nil {\n\t\t\tfmt.Println(\"REPLAY-PANIC:\", e)\n\t\t}\n\t}()\n")
-	fmt.Fprintf(&b, "\t(&p).%s(%s)\n", in.method, in.callArgs)
+	args := in.callArgs
+	if in.hasData {
+		args = dn
+	}
+	switch in.nres {
+	case 0:
+		fmt.Fprintf(&b, "\t%s.%s(%s)\n", rn, in.method, args)
+	case 1:
+		fmt.Fprintf(&b, "\tresult := %s.%s(%s)\n\tresult0 := result\n\t_, _ = result, result0\n", rn, in.method, args)
+	default:
+		fmt.Fprintf(&b, "\tresult0, result1 := %s.%s(%s)\n\t_, _ = result0, result1\n", rn, in.method, args)
+	}
+	if in.post != "" {
+		fmt.Fprintf(&b, "\tif !(%s) {\n\t\tfmt.Printf(\"REPLAY-VIOLATION: postcondition does not hold: %%s\\n\", %q)\n\t}\n", in.post, in.postSrc)
+	}
 	b.WriteString("\tfmt.Println(\"REPLAY-RETURNED\")\n}\n")
 	return b.String()
 }
